@@ -452,6 +452,15 @@ class Ctx:
         self.rule = ""
         self.known = load_known(pid)
         self.coverage_actions = {}
+        # replay files of earlier runs of this property are stale
+        rd = os.path.join(ROOT, "replays")
+        if os.path.isdir(rd):
+            for fn in os.listdir(rd):
+                if fn.startswith(pid + "-"):
+                    try:
+                        os.remove(os.path.join(rd, fn))
+                    except OSError:
+                        pass
 
     # --- accounting
     def add_tlc(self, r):
